@@ -42,7 +42,7 @@ def scratch(prefix="run"):
 
 
 def _java_cmd(args, heap="6g"):
-    return ["java", "-XX:+UseParallelGC", "-XX:ParallelGCThreads=4", f"-Xmx{heap}", "-cp", JAR_CP, "tlc2.TLC", *args]
+    return ["java", "-XX:+UseParallelGC", "-XX:ParallelGCThreads=4", "-Xss256m", f"-Xmx{heap}", "-cp", JAR_CP, "tlc2.TLC", *args]
 
 
 def run_tlc(module, cfg, *, workers=16, timeout=600, env=None, dump=None, coverage=False, extra=(), cwd=SPEC, heap="6g",
